@@ -1,6 +1,7 @@
 import PW.Proofs.SpecLemmas
 import PW.Proofs.LayoutLemmas
 import PW.Props.Tables
+import PW.Proofs.DecideLemmas
 /-!
 # C17 — invalid requests are rejected and leave the system unchanged
 
@@ -33,6 +34,28 @@ theorem rejected_single_target_layout (l : Layout.Layout) (c t : Nat)
 theorem required_parameters_table : PW.Generated.opTable = PW.TablesSpec.expectedOps :=
   PW.Props.Tables.op_table_as_expected
 
+/-! ## the Kraus completeness test (model `PW.Decide.krausCheck`, tied to `kraus_identity_check`
+by the regenerated source table and by the function-level correspondence) -/
+open Matrix in
+/-- with an exact entry test the check accepts exactly the sets with `Σ Kᴴ K = 1` (to which the
+channel theorems of C06 apply) -/
+theorem kraus_check_exact (d : Nat) (ops : List (Tensor ℂ)) :
+    PW.Decide.krausCheck PW.Decide.exactOk d ops = true ↔
+      ((ops.map fun K => (PW.Adequacy.opMatrix (a := d) K)ᴴ * PW.Adequacy.opMatrix K).sum : Matrix (Fin d) (Fin d) ℂ) = 1 :=
+  PW.Decide.krausCheck_exact_iff d ops
+
+open Matrix in
+/-- a set accepted with entrywise slack `ε` (the library: 1e-6 off the diagonal, 1.1e-5 on it) changes
+the trace of any `ρ` by at most `ε · Σ|ρ_ij|` -/
+theorem accepted_kraus_set_nearly_preserves_trace {d : Nat} {ι : Type} (s : Finset ι)
+    (K : ι → Matrix (Fin d) (Fin d) ℂ) (ρ : Matrix (Fin d) (Fin d) ℂ) (ε : ℝ)
+    (hS : ∀ r c, ‖(∑ i ∈ s, (K i)ᴴ * K i) r c - (1 : Matrix (Fin d) (Fin d) ℂ) r c‖ ≤ ε) :
+    ‖(∑ i ∈ s, K i * ρ * (K i)ᴴ).trace - ρ.trace‖ ≤ ε * ∑ r, ∑ c, ‖ρ c r‖ :=
+  PW.Decide.trace_defect_bound s K ρ ε hS
+
+theorem kraus_check_source : PW.Generated.krausCheckSource = PW.TablesSpec.expectedKrausCheckSource :=
+  PW.Props.Tables.kraus_check_source_as_expected
+
 end PW.Props.C17
 
 #print axioms PW.Props.C17.rejected_operation_changes_nothing
@@ -40,3 +63,6 @@ end PW.Props.C17
 #print axioms PW.Props.C17.refused_shrink_changes_nothing
 #print axioms PW.Props.C17.rejected_single_target_layout
 #print axioms PW.Props.C17.required_parameters_table
+#print axioms PW.Props.C17.kraus_check_exact
+#print axioms PW.Props.C17.accepted_kraus_set_nearly_preserves_trace
+#print axioms PW.Props.C17.kraus_check_source
